@@ -62,3 +62,20 @@ macro_rules! arm_harness {
         fn $name() $body
     };
 }
+
+/// A heap-backed atom of exactly L bytes with symbolic content and *constant* length,
+/// for L < 5 as well (clvmr stores canonical small integers inside the NodePtr and derives
+/// their length from the value, which CBMC sees as a symbolic length). Built the way the
+/// `substr` operator builds atoms: a view into a larger heap atom.
+pub fn sym_heap_atom<const L: usize>(a: &mut Allocator) -> (NodePtr, [u8; L]) {
+    let buf: [u8; L] = kani::any();
+    let mut big = [0xffu8; 12];
+    let mut i = 0;
+    while i < L {
+        big[1 + i] = buf[i];
+        i += 1;
+    }
+    let base = a.new_atom(&big).unwrap();
+    let n = a.new_substr(base, 1, 1 + L as u32).unwrap();
+    (n, buf)
+}
